@@ -45,7 +45,10 @@ func executeDigests(sc WScript, rep *kit.Report) error {
 		idxK, dataK, markK, ctlK = cesium.ChannelKey(1), cesium.ChannelKey(2), cesium.ChannelKey(3), cesium.ChannelKey(100)
 	)
 	ctx := context.Background()
-	db, err := cesium.Open(ctx, "", cesium.WithFS(xfs.NewMem()))
+	// the relay drops a frame that a streamer does not take within SlowConsumerTimeout (20 ms by
+	// default): by design, and fatal for an oracle that counts updates on a busy machine
+	db, err := cesium.Open(ctx, "", cesium.WithFS(xfs.NewMem()),
+		cesium.WithVerifStreamingConfig(cesium.DBStreamingConfig{BufferSize: 1000, SlowConsumerTimeout: 60 * time.Second}))
 	if err != nil {
 		return kit.Fail("setup", "open: %v", err)
 	}
